@@ -106,6 +106,7 @@ type c18Identity struct {
 	lhs, rhs        string // templates over XS, P, F, YS
 	needsF          bool
 	lhsMayFailAlone bool
+	rhsMayFailAlone bool // the left side stops at the first satisfying element, the right side evaluates the predicate on every element
 }
 
 var c18Identities = []c18Identity{
@@ -114,7 +115,7 @@ var c18Identities = []c18Identity{
 	{name: "one=count-eq-1", lhs: "one(§X§, {§P§})", rhs: "count(§X§, {§P§}) == 1"},
 	{name: "count=len-filter", lhs: "count(§X§, {§P§})", rhs: "len(filter(§X§, {§P§}))"},
 	{name: "len-map=len", lhs: "len(map(§X§, {§F§}))", rhs: "len(§X§)", needsF: true, lhsMayFailAlone: true},
-	{name: "any=count-gt-0", lhs: "any(§X§, {§P§})", rhs: "count(§X§, {§P§}) > 0"},
+	{name: "any=count-gt-0", lhs: "any(§X§, {§P§})", rhs: "count(§X§, {§P§}) > 0", rhsMayFailAlone: true},
 	{name: "filter-filter", lhs: "filter(filter(§X§, {§P§}), {§P§})", rhs: "filter(§X§, {§P§})"},
 }
 
@@ -246,7 +247,7 @@ func c18(r *report.Run) {
 							continue
 						}
 						switch {
-						case a.fail != b.fail && !(id.lhsMayFailAlone && a.fail):
+						case a.fail != b.fail && !(id.lhsMayFailAlone && a.fail) && !(id.rhsMayFailAlone && b.fail && a.norm == "true"):
 							report1(order, id.name, m.String(), "failure-differs", lhs, rhs, v, fmt.Sprintf("lhs failed=%v rhs failed=%v", a.fail, b.fail), xs, p)
 						case !a.fail && !b.fail && a.norm != b.norm:
 							report1(order, id.name, m.String(), "value", lhs, rhs, v, a.norm+" != "+b.norm, xs, p)
